@@ -874,3 +874,137 @@ def zero_rule(run, rid, p, funcs, sources, text):
                    '%s holds a number (%s) and is used as a condition: a value of 0 is treated like "no value"' % (nm, norm(node)[:60]),
                    fn=f, node=node)
     return n
+
+
+# ---------------------------------------------------------------------------------------------
+# Python gotchas that turn a whole string into its characters
+
+def _listish(e):
+    return isinstance(e, (ast.List, ast.ListComp, ast.Tuple, ast.Set, ast.SetComp, ast.GeneratorExp)) or \
+        (isinstance(e, ast.Call) and getattr(e.func, 'id', '') in ('list', 'sorted', 'tuple', 'set')) or \
+        (isinstance(e, ast.BinOp) and isinstance(e.op, ast.Add) and (_listish(e.left) or _listish(e.right)))
+
+
+def string_spread_sites(p, f):
+    """`L += x` / `L.extend(x)` where L is a list built in f and x is a bare name that f binds to something that is not a
+    list (a loop variable, an unpacked element, a string expression): the list grows by x's characters."""
+    from .c10 import stored_names
+    lists, scalars = set(), set()
+    for s in p.own_nodes(f):
+        if isinstance(s, ast.Assign) and len(s.targets) == 1 and isinstance(s.targets[0], ast.Name):
+            (lists if _listish(s.value) else scalars).add(s.targets[0].id)
+        elif isinstance(s, (ast.For, ast.comprehension)):
+            for x in ast.walk(s.target):
+                if isinstance(x, ast.Name):
+                    scalars.add(x.id)
+        elif isinstance(s, ast.Assign):
+            for t in s.targets:
+                for x in ast.walk(t):
+                    if isinstance(x, ast.Name) and isinstance(x.ctx, ast.Store):
+                        scalars.add(x.id)
+    scalars -= lists
+    out = []
+    for s in p.own_nodes(f):
+        tgt = val = None
+        if isinstance(s, ast.AugAssign) and isinstance(s.op, ast.Add) and isinstance(s.target, ast.Name):
+            tgt, val = s.target.id, s.value
+        elif isinstance(s, ast.Call) and isinstance(s.func, ast.Attribute) and s.func.attr == 'extend' and \
+                isinstance(s.func.value, ast.Name) and len(s.args) == 1:
+            tgt, val = s.func.value.id, s.args[0]
+        if tgt in lists and isinstance(val, ast.Name) and val.id in scalars:
+            out.append((s, tgt, val.id))
+    return out
+
+
+def paren_string_constants(mod):
+    """Constants written NAME = ('text') - one string token in parentheses: a 1-tuple that lost its comma.
+    -> [(name, assign node)]"""
+    import io
+    import tokenize
+    out = []
+    src = mod.src if hasattr(mod, 'src') else None
+    if src is None:
+        return out
+    lines = src.splitlines(keepends=True)
+    for n in ast.walk(mod.tree):
+        if isinstance(n, ast.Assign) and len(n.targets) == 1 and isinstance(n.targets[0], ast.Name) and \
+                isinstance(n.value, ast.Constant) and isinstance(n.value.value, str):
+            seg = ''.join(lines[n.lineno - 1:n.end_lineno])
+            try:
+                toks = [t for t in tokenize.generate_tokens(io.StringIO(seg).readline)
+                        if t.type not in (tokenize.NL, tokenize.NEWLINE, tokenize.INDENT, tokenize.DEDENT, tokenize.COMMENT, tokenize.ENDMARKER)]
+            except (tokenize.TokenError, IndentationError):
+                continue
+            strs = [t for t in toks if t.type == tokenize.STRING]
+            ops = [t.string for t in toks if t.type == tokenize.OP]
+            if len(strs) == 1 and '(' in ops and ')' in ops and ',' not in ops:
+                out.append((n.targets[0].id, n))
+    return out
+
+
+GOTCHA_POSITIVE = '''
+KINDS = ('pdf')
+LONG = ('one '
+        'two')
+PAIR = ('a', 'b')
+def f(ext, items):
+    out = []
+    for (which, s) in items:
+        out += s
+    extra = [x for x in items]
+    out += extra
+    d = {}
+    d.setdefault('k', [ext])
+    d.setdefault('k', []).append(ext)
+    return ext in KINDS, ext in PAIR, ext in LONG
+'''
+
+
+def gotcha_rule(run, rid, p, modules, text):
+    run.rule(rid, text)
+    from ..model import Program
+    ex = Program({'tdda/_gotcha_example.py': GOTCHA_POSITIVE})
+    em = ex.mod('tdda._gotcha_example')
+    if [k for k, v in paren_string_constants(em)] != ['KINDS'] or \
+            [(t, v) for s, t, v in string_spread_sites(ex, ex.fn('f'))] != [('out', 's')]:
+        raise AnalysisErrorCommon('gotcha rule no longer matches its embedded example')
+    n = 0
+    for mn in modules:
+        m = p.mod(mn)
+        n += 1
+        consts = dict(paren_string_constants(m))
+        used = set()
+        for x in ast.walk(m.tree):
+            if isinstance(x, ast.Compare) and any(isinstance(o, (ast.In, ast.NotIn)) for o in x.ops):
+                for c in x.comparators:
+                    nm = norm(c).split('.')[-1]
+                    if nm in consts:
+                        used.add((nm, x))
+        bad = False
+        for nm, x in sorted(used, key=lambda t: t[1].lineno):
+            bad = True
+            run.ob(rid, '%s::%s::in-string' % (m.rel, nm), False,
+                   '%s = (%r) is a string, not a one-element tuple (no comma), so `%s` is a substring test: every fragment of it '
+                   'matches, the empty string included' % (nm, consts[nm].value.value, norm(x)[:50]), rel=m.rel, line=consts[nm].lineno)
+        for f in p.funcs.values():
+            if f.mod is not m or isinstance(f.node, ast.Lambda):
+                continue
+            for s, tgt, val in string_spread_sites(p, f):
+                bad = True
+                run.ob(rid, '%s::%s::%s+=%s' % (f.rel, f.short, tgt, val), False,
+                       '%s extends the list %s by %s, which it binds to a single item, not a list: a string is added character by '
+                       'character' % (f.short, tgt, val), fn=f, node=s)
+            for s in p.own_nodes(f):
+                # d.setdefault(k, [v]) as a statement: meant as setdefault(k, []).append(v); only the first v is ever kept
+                if isinstance(s, ast.Expr) and isinstance(s.value, ast.Call) and isinstance(s.value.func, ast.Attribute) and \
+                        s.value.func.attr == 'setdefault' and len(s.value.args) == 2 and \
+                        isinstance(s.value.args[1], (ast.List, ast.Set, ast.Dict, ast.Tuple)) and \
+                        (getattr(s.value.args[1], 'elts', None) or getattr(s.value.args[1], 'keys', None)):
+                    bad = True
+                    run.ob(rid, '%s::%s::%s' % (f.rel, f.short, norm(s)[:50]), False,
+                           '%s: `%s` stores its value only when the key is new and discards the result: every later value for that '
+                           'key is lost (setdefault(k, []).append(v) accumulates)' % (f.short, norm(s)[:60]), fn=f, node=s)
+        if not bad:
+            run.ob(rid, mn, True, '%s: no parenthesised-string "tuple" used with `in`, no list extended by a single item' % mn,
+                   rel=m.rel, line=1, nontrivial=False)
+    return n
